@@ -2,6 +2,7 @@ package main
 
 import (
 	"fmt"
+	"go/types"
 	"os"
 	"path/filepath"
 	"sort"
@@ -633,10 +634,78 @@ func (c *Ctx) shippedConfig(path, name string, regions map[string]region, strate
 			}
 		}
 	}
+	// every key written in the file is decoded into the configuration (yaml.v3 drops unknown keys silently)
+	cfgT := c.P.Named("internal/config", "Config")
+	if cfgT != nil {
+		unknown := map[string]bool{}
+		for _, s := range sc {
+			if strings.HasPrefix(s.Path, "plugins.chain[].config") {
+				continue // free-form plugin payload
+			}
+			if miss := yamlPathUnknown(cfgT, strings.Split(strings.ReplaceAll(s.Path, "[]", ""), ".")); miss != "" && !unknown[miss] {
+				unknown[miss] = true
+				bad = append(bad, fmt.Sprintf("%s:%d: key %q (in %s) matches no yaml tag of the configuration structs: it is silently ignored, so the documented form does not configure anything", name, s.Line, miss, s.Path))
+			}
+			checked++
+		}
+	}
 	if len(bad) == 0 {
 		c.Pass("shipped-config-accepted", name, name, fmt.Sprintf("%d scalars checked against the regions/tables extracted from the validator", checked))
 	} else {
 		c.Fail("shipped-config-accepted", name, name, bad[0], bad...)
 	}
 	c.Floor("shipped-config-accepted", checked, 25, "scalars of "+name)
+}
+
+// yamlPathUnknown walks a key path through the yaml tags of the configuration structs and returns
+// the first component that no field decodes ("" if the whole path is known).
+func yamlPathUnknown(t types.Type, path []string) string {
+	for {
+		switch tt := t.Underlying().(type) {
+		case *types.Pointer:
+			t = tt.Elem()
+			continue
+		case *types.Slice:
+			t = tt.Elem()
+			continue
+		}
+		break
+	}
+	if len(path) == 0 {
+		return ""
+	}
+	st, ok := t.Underlying().(*types.Struct)
+	if !ok {
+		if _, isMap := t.Underlying().(*types.Map); isMap {
+			return ""
+		}
+		return path[0]
+	}
+	for i := 0; i < st.NumFields(); i++ {
+		tag := reflectTag(st.Tag(i), "yaml")
+		name := strings.Split(tag, ",")[0]
+		if name == "" {
+			name = strings.ToLower(st.Field(i).Name())
+		}
+		if name == path[0] {
+			return yamlPathUnknown(st.Field(i).Type(), path[1:])
+		}
+	}
+	return path[0]
+}
+
+func reflectTag(tag, key string) string {
+	for tag != "" {
+		i := strings.Index(tag, key+":\"")
+		if i < 0 {
+			return ""
+		}
+		rest := tag[i+len(key)+2:]
+		j := strings.Index(rest, "\"")
+		if j < 0 {
+			return ""
+		}
+		return rest[:j]
+	}
+	return ""
 }
